@@ -79,8 +79,10 @@ class Rig:
         self.server = cw.server
         self.login_mode = cfg.get('login', 'ok')
         self.server.login_response = self._login
+        unknown = set(cfg.get('unknown_users', []))
         self.server.auto[M.AddUser.Request] = lambda srv, msg: srv.send(
-            M.AddUser.Response(msg.username, True, 2, STATS, 'BE'))
+            M.AddUser.Response(msg.username, False) if msg.username in unknown
+            else M.AddUser.Response(msg.username, True, 2, STATS, 'BE'))
         self.server.auto[M.JoinRoom.Request] = lambda srv, msg: srv.send(
             M.JoinRoom.Response(msg.room, ['me', 'x1'], [2, 2], [STATS, STATS], [0, 0], ['BE', 'BE']))
         self.initialized: list = []
@@ -292,7 +294,7 @@ def configurations(tier):
 # ---- (B) loss and stop placement ------------------------------------------------------------------------------------
 
 BASE_B = {'ports': (60000, 60001), 'friends': ['f1', 'f2'], 'liked': ['a'], 'hated': [], 'favorites': ['r1'],
-          'auto_join': True, 'invites': True, 'shares': 1}
+          'auto_join': True, 'invites': True, 'shares': 1, 'unknown_users': ['f2']}
 
 
 def run_placement(params: dict) -> dict:
@@ -301,7 +303,8 @@ def run_placement(params: dict) -> dict:
     rig = Rig(cfg)
     world, client, server, net = rig.world, rig.client, rig.server, rig.cw.net
     action, point = params['action'], params['point']
-    label = f"{action} at {point}, reconnect={'on' if params['reconnect'] else 'off'}"
+    label = f"{action} at {point}, reconnect={'on' if params['reconnect'] else 'off'}" + (
+        f", server unreachable for {params['down']} s" if params.get('down') else '')
     try:
         world.op('boot', 'start', lambda: client.start(), record=False)
         world.run_default_until_idle()
@@ -347,7 +350,16 @@ def run_placement(params: dict) -> dict:
         elif action == 'stop':
             stop_slot = world.op('user', 'stop', lambda: client.stop(), record=False)
         n_connects_at_inject = len(net.connect_log)
-        world.run_default_for(60.0)
+        down = params.get('down', 0)
+        if down:
+            # the server cannot be reached for a while after the loss (the first reconnect attempt fails)
+            addr = (server.ip, server.port)
+            listener = net.listeners.pop(addr)
+            world.run_default_for(float(down))
+            net.listeners[addr] = listener
+            world.run_default_for(60.0 - down)
+        else:
+            world.run_default_for(60.0)
 
         # -- sessions are destroyed exactly once ------------------------------------------------------------------
         ended = [s for _, s in rig.destroyed]
@@ -456,6 +468,10 @@ def placements(tier):
         for action in ('eof', 'reset', 'disconnect', 'stop'):
             for rec in (False, True):
                 out.append({'point': list(point), 'action': action, 'reconnect': rec})
+    for down in (5, 15, 25):
+        for rec in (False, True):
+            for point in (('idle', 0), ('work', 5.0)):
+                out.append({'point': list(point), 'action': 'reset', 'reconnect': rec, 'down': down})
     return out
 
 
@@ -481,7 +497,7 @@ def run_scenario(params: dict, tier: str) -> dict:
         if params['kind'] == 'config':
             out = run_config(item)
         else:
-            out = run_placement({'point': tuple(item['point']), 'action': item['action'], 'reconnect': item['reconnect']})
+            out = run_placement(dict(item, point=tuple(item['point'])))
         if out.get('skipped'):
             continue
         n += 1
